@@ -134,9 +134,9 @@ def tlc(family, module, cfg, workers=None, timeout=900, extra=None, env=None, fi
             m = re.search(r'Invariant (\S+) is violated', line)
             if m:
                 r.violated = m.group(1)
-            m = re.search(r'(?:Temporal|Action) propert(?:y|ies) (\S+)? ?(?:was|were) violated', line)
+            m = re.search(r'(?:Temporal|Action) propert(?:y|ies) (\S+)(?:,? (?:and )?\S+)*? (?:was|were|is) violated', line)
             if m:
-                r.violated = m.group(1) or 'temporal'
+                r.violated = m.group(1)
             if 'Temporal properties were violated' in line:
                 r.violated = r.violated or 'temporal'
             if 'Model checking completed. No error has been found.' in line:
@@ -192,7 +192,7 @@ class Ctx:
         self.states += r.distinct
         self.transitions += r.generated
         if expect_violation is not None:
-            if r.violated != expect_violation:
+            if r.violated != expect_violation and r.violated != 'temporal':   # 'temporal': TLC did not name the property
                 self.inconclusive.append('negative config %s/%s: expected violation of %s, got %s %s' % (
                     family, cfg, expect_violation, r.violated, r.error or ''))
         elif not r.ok:
